@@ -1,0 +1,34 @@
+//go:build verif
+
+// Hooks for the verification harness in /verif (the checks on the Go → Lean translator). Compiled only
+// with `-tags verif`; thin exported wrappers around unexported identifiers, no behaviour of their own.
+package apk
+
+// VerifComparePackages evaluates the comparator returned by PkgResolver.comparePackages on two candidates
+// (aPin / bPin are the pinned names of the indexes they come from).
+func VerifComparePackages(compare *RepositoryPackage, name string, existing map[string]*RepositoryPackage, existingOrigins map[string]bool, pin string, a, b *RepositoryPackage, aPin, bPin string) int {
+	p := &PkgResolver{}
+	return p.comparePackages(compare, name, existing, existingOrigins, pin)(&repositoryPackage{a, aPin}, &repositoryPackage{b, bPin})
+}
+
+// VerifGetDepVersionForName calls PkgResolver.getDepVersionForName.
+func VerifGetDepVersionForName(pkg *RepositoryPackage, name string) string {
+	p := &PkgResolver{}
+	return p.getDepVersionForName(&repositoryPackage{pkg, ""}, name)
+}
+
+// VerifConflictingVersion calls PkgResolver.conflictingVersion; panicked reports its panic.
+func VerifConflictingVersion(constraint string, conflict *RepositoryPackage) (res bool, panicked bool) {
+	defer func() {
+		if r := recover(); r != nil {
+			res, panicked = false, true
+		}
+	}()
+	p := &PkgResolver{}
+	return p.conflictingVersion(cachedResolvePackageNameVersionPin(constraint), &repositoryPackage{conflict, ""}), false
+}
+
+// VerifSatisfies calls versionDependency.satisfies.
+func VerifSatisfies(dep int, actual, required Version) bool {
+	return versionDependency(dep).satisfies(actual, required)
+}
